@@ -11,7 +11,6 @@ import (
 	"github.com/nspcc-dev/neo-go/pkg/crypto/hash"
 	"github.com/nspcc-dev/neofs-node/pkg/network/peerauth"
 	"github.com/nspcc-dev/neofs-sdk-go/bearer"
-	cid "github.com/nspcc-dev/neofs-sdk-go/container/id"
 	neofscrypto "github.com/nspcc-dev/neofs-sdk-go/crypto"
 	neofsecdsa "github.com/nspcc-dev/neofs-sdk-go/crypto/ecdsa"
 	"github.com/nspcc-dev/neofs-sdk-go/eacl"
@@ -25,6 +24,7 @@ import (
 	sessionv2 "github.com/nspcc-dev/neofs-sdk-go/session/v2"
 	"github.com/nspcc-dev/neofs-sdk-go/user"
 	"google.golang.org/grpc/peer"
+	"google.golang.org/protobuf/proto"
 )
 
 // Built is a ready-to-send request.
@@ -73,10 +73,6 @@ func scheme(i int) neofscrypto.Scheme {
 		return neofscrypto.ECDSA_WALLETCONNECT
 	}
 	return neofscrypto.ECDSA_SHA512
-}
-
-type signedReq[B neofscrypto.ProtoMessage] interface {
-	neofscrypto.SignedRequest[B]
 }
 
 func (u *Universe) verb(s Spec) (session.ObjectVerb, sessionv2.Verb) {
@@ -533,9 +529,9 @@ func (u *Universe) buildPut(s Spec, b *Built) {
 			func(m *protosession.RequestMetaHeader) { r.MetaHeader = m },
 			func() {
 				if in, ok := r.Body.ObjectPart.(*protoobject.PutRequest_Body_Init_); ok {
-					h := *in.Init.Header
+					h := proto.Clone(in.Init.Header).(*protoobject.Header)
 					h.PayloadLength++
-					in.Init.Header = &h
+					in.Init.Header = h
 				} else {
 					c := r.Body.ObjectPart.(*protoobject.PutRequest_Body_Chunk)
 					c.Chunk = append(slices.Clone(c.Chunk), 0xFF)
@@ -567,5 +563,3 @@ func (u *Universe) ReplicateRequest(ci int, payload []byte, signObject bool) *pr
 		SignObject: signObject,
 	}
 }
-
-var _ = cid.ID{}
